@@ -113,7 +113,7 @@ def make_packet(c, sport, dport, prefix=""):
                  tcp_packet=True, udp_packet=False)
 
 
-@harness("C10", "ports.roles", functions=[SE + ".set_client_and_server_ports", QS + ".set_server_client_address"],
+@harness(["C10", "C07"], "ports.roles", functions=[SE + ".set_client_and_server_ports", QS + ".set_server_client_address"],
          cases=[("tls",), ("quic",)])
 def h_roles(c, kind):
     """the side whose port is a server port is the server (source side checked first); addresses, MACs and
